@@ -17,6 +17,14 @@ var (
 	ErrConversionSizeOverflow = errors.New("size overflow")
 )
 
+const (
+	// float2Pow63 is math.MaxInt64+1: the smallest float above the int64 range
+	// (math.MaxInt64 itself is not representable as a float and rounds up to it)
+	float2Pow63 = 9223372036854775808.0
+	// float2Pow64 is math.MaxUint64+1: the smallest float above the uint64 range
+	float2Pow64 = 18446744073709551616.0
+)
+
 // Maybe
 
 // MaybeDef Maybe inspired by Rx/Optional/Guava/Haskell
@@ -277,7 +285,12 @@ func (maybeSelf someDef[T]) ToFloat32() (float32, error) {
 		return (ref).(float32), nil
 	case float64:
 		val, err := maybeSelf.ToFloat64()
-		return float32(val), err
+		result := float32(val)
+		if math.IsInf(float64(result), 0) && !math.IsInf(val, 0) {
+			// a finite value must not silently become +-Inf
+			return 0, ErrConversionSizeOverflow
+		}
+		return result, err
 	}
 }
 
@@ -350,9 +363,10 @@ func (maybeSelf someDef[T]) ToInt() (int, error) {
 		}
 		return 0, ErrConversionSizeOverflow
 	case float32:
-		val, err := maybeSelf.ToFloat32()
+		val32, err := maybeSelf.ToFloat32()
+		val := float64(val32) // math.MaxInt32 is not representable in float32
 		if val >= math.MinInt32 && val <= math.MaxInt32 {
-			return int(math.Round(float64(val))), err
+			return int(math.Round(val)), err
 		}
 		return 0, ErrConversionSizeOverflow
 	case float64:
@@ -620,14 +634,18 @@ func (maybeSelf someDef[T]) ToInt32() (int32, error) {
 		}
 		return 0, ErrConversionSizeOverflow
 	case float32:
-		val, err := maybeSelf.ToFloat32()
+		val32, err := maybeSelf.ToFloat32()
+		val := float64(val32) // math.MaxInt32 is not representable in float32
 		if val >= math.MinInt32 && val <= math.MaxInt32 {
-			return int32(math.Round(float64(val))), err
+			return int32(math.Round(val)), err
 		}
 		return 0, ErrConversionSizeOverflow
 	case float64:
 		val, err := maybeSelf.ToFloat64()
-		return int32(math.Round(val)), err
+		if val >= math.MinInt32 && val <= math.MaxInt32 {
+			return int32(math.Round(val)), err
+		}
+		return 0, ErrConversionSizeOverflow
 	}
 }
 
@@ -692,13 +710,13 @@ func (maybeSelf someDef[T]) ToInt64() (int64, error) {
 		return (ref).(int64), nil
 	case float32:
 		val, err := maybeSelf.ToFloat32()
-		if val >= math.MinInt64 && val <= math.MaxInt64 {
+		if val >= -float2Pow63 && val < float2Pow63 {
 			return int64(math.Round(float64(val))), err
 		}
 		return 0, ErrConversionSizeOverflow
 	case float64:
 		val, err := maybeSelf.ToFloat64()
-		if val >= math.MinInt64 && val <= math.MaxInt64 {
+		if val >= -float2Pow63 && val < float2Pow63 {
 			return int64(math.Round(val)), err
 		}
 		return 0, ErrConversionSizeOverflow
@@ -716,8 +734,8 @@ func (maybeSelf someDef[T]) ToByte() (byte, error) {
 	default:
 		return uint8(0), ErrConversionUnsupported
 	case string:
-		parseInt, err := strconv.ParseInt((ref).(string), 10, 8)
-		return uint8(parseInt), err
+		parseUint, err := strconv.ParseUint((ref).(string), 10, 8)
+		return uint8(parseUint), err
 	case bool:
 		val, err := maybeSelf.ToBool()
 		if val {
@@ -764,7 +782,10 @@ func (maybeSelf someDef[T]) ToByte() (byte, error) {
 		return 0, ErrConversionSizeOverflow
 	case int8:
 		val, err := maybeSelf.ToInt8()
-		return uint8(val), err
+		if val >= 0 {
+			return uint8(val), err
+		}
+		return 0, ErrConversionSizeOverflow
 	case int16:
 		val, err := maybeSelf.ToInt16()
 		if val >= 0 && val <= math.MaxUint8 {
@@ -809,8 +830,8 @@ func (maybeSelf someDef[T]) ToUint() (uint, error) {
 	default:
 		return 0, ErrConversionUnsupported
 	case string:
-		parseInt, err := strconv.ParseInt((ref).(string), 10, 32)
-		return uint(parseInt), err
+		parseUint, err := strconv.ParseUint((ref).(string), 10, 32)
+		return uint(parseUint), err
 	case bool:
 		val, err := maybeSelf.ToBool()
 		if val {
@@ -845,16 +866,28 @@ func (maybeSelf someDef[T]) ToUint() (uint, error) {
 		return uint(val), err
 	case int:
 		val, err := maybeSelf.ToInt()
-		return uint(val), err
+		if val >= 0 {
+			return uint(val), err
+		}
+		return 0, ErrConversionSizeOverflow
 	case int8:
 		val, err := maybeSelf.ToInt8()
-		return uint(val), err
+		if val >= 0 {
+			return uint(val), err
+		}
+		return 0, ErrConversionSizeOverflow
 	case int16:
 		val, err := maybeSelf.ToInt16()
-		return uint(val), err
+		if val >= 0 {
+			return uint(val), err
+		}
+		return 0, ErrConversionSizeOverflow
 	case int32:
 		val, err := maybeSelf.ToInt32()
-		return uint(val), err
+		if val >= 0 {
+			return uint(val), err
+		}
+		return 0, ErrConversionSizeOverflow
 	case int64:
 		val, err := maybeSelf.ToInt64()
 		if val >= 0 && val <= math.MaxUint32 {
@@ -862,9 +895,10 @@ func (maybeSelf someDef[T]) ToUint() (uint, error) {
 		}
 		return 0, ErrConversionSizeOverflow
 	case float32:
-		val, err := maybeSelf.ToFloat32()
+		val32, err := maybeSelf.ToFloat32()
+		val := float64(val32) // math.MaxUint32 is not representable in float32
 		if val >= 0 && val <= math.MaxUint32 {
-			return uint(math.Round(float64(val))), err
+			return uint(math.Round(val)), err
 		}
 		return 0, ErrConversionSizeOverflow
 	case float64:
@@ -892,8 +926,8 @@ func (maybeSelf someDef[T]) ToUint16() (uint16, error) {
 	default:
 		return uint16(0), ErrConversionUnsupported
 	case string:
-		parseInt, err := strconv.ParseInt((ref).(string), 10, 16)
-		return uint16(parseInt), err
+		parseUint, err := strconv.ParseUint((ref).(string), 10, 16)
+		return uint16(parseUint), err
 	case bool:
 		val, err := maybeSelf.ToBool()
 		if val {
@@ -937,10 +971,16 @@ func (maybeSelf someDef[T]) ToUint16() (uint16, error) {
 		return 0, ErrConversionSizeOverflow
 	case int8:
 		val, err := maybeSelf.ToInt8()
-		return uint16(val), err
+		if val >= 0 {
+			return uint16(val), err
+		}
+		return 0, ErrConversionSizeOverflow
 	case int16:
-		val, err := maybeSelf.ToInt32()
-		return uint16(val), err
+		val, err := maybeSelf.ToInt16()
+		if val >= 0 {
+			return uint16(val), err
+		}
+		return 0, ErrConversionSizeOverflow
 	case int32:
 		val, err := maybeSelf.ToInt32()
 		if val >= 0 && val <= math.MaxUint16 {
@@ -979,8 +1019,8 @@ func (maybeSelf someDef[T]) ToUint32() (uint32, error) {
 	default:
 		return uint32(0), ErrConversionUnsupported
 	case string:
-		parseInt, err := strconv.ParseInt((ref).(string), 10, 32)
-		return uint32(parseInt), err
+		parseUint, err := strconv.ParseUint((ref).(string), 10, 32)
+		return uint32(parseUint), err
 	case bool:
 		val, err := maybeSelf.ToBool()
 		if val {
@@ -1021,13 +1061,22 @@ func (maybeSelf someDef[T]) ToUint32() (uint32, error) {
 		return 0, ErrConversionSizeOverflow
 	case int8:
 		val, err := maybeSelf.ToInt8()
-		return uint32(val), err
+		if val >= 0 {
+			return uint32(val), err
+		}
+		return 0, ErrConversionSizeOverflow
 	case int16:
 		val, err := maybeSelf.ToInt16()
-		return uint32(val), err
+		if val >= 0 {
+			return uint32(val), err
+		}
+		return 0, ErrConversionSizeOverflow
 	case int32:
 		val, err := maybeSelf.ToInt32()
-		return uint32(val), err
+		if val >= 0 {
+			return uint32(val), err
+		}
+		return 0, ErrConversionSizeOverflow
 	case int64:
 		val, err := maybeSelf.ToInt64()
 		if val >= 0 && val <= math.MaxUint32 {
@@ -1035,14 +1084,18 @@ func (maybeSelf someDef[T]) ToUint32() (uint32, error) {
 		}
 		return 0, ErrConversionSizeOverflow
 	case float32:
-		val, err := maybeSelf.ToFloat32()
+		val32, err := maybeSelf.ToFloat32()
+		val := float64(val32) // math.MaxUint32 is not representable in float32
 		if val >= 0 && val <= math.MaxUint32 {
-			return uint32(math.Round(float64(val))), err
+			return uint32(math.Round(val)), err
 		}
 		return 0, ErrConversionSizeOverflow
 	case float64:
 		val, err := maybeSelf.ToFloat64()
-		return uint32(math.Round(val)), err
+		if val >= 0 && val <= math.MaxUint32 {
+			return uint32(math.Round(val)), err
+		}
+		return 0, ErrConversionSizeOverflow
 	}
 }
 
@@ -1057,8 +1110,7 @@ func (maybeSelf someDef[T]) ToUint64() (uint64, error) {
 	default:
 		return uint64(0), ErrConversionUnsupported
 	case string:
-		parseInt, err := strconv.ParseInt((ref).(string), 10, 64)
-		return uint64(parseInt), err
+		return strconv.ParseUint((ref).(string), 10, 64)
 	case bool:
 		val, err := maybeSelf.ToBool()
 		if val {
@@ -1087,28 +1139,43 @@ func (maybeSelf someDef[T]) ToUint64() (uint64, error) {
 		return uint64(val), err
 	case int:
 		val, err := maybeSelf.ToInt()
-		return uint64(val), err
+		if val >= 0 {
+			return uint64(val), err
+		}
+		return 0, ErrConversionSizeOverflow
 	case int8:
 		val, err := maybeSelf.ToInt8()
-		return uint64(val), err
+		if val >= 0 {
+			return uint64(val), err
+		}
+		return 0, ErrConversionSizeOverflow
 	case int16:
 		val, err := maybeSelf.ToInt16()
-		return uint64(val), err
+		if val >= 0 {
+			return uint64(val), err
+		}
+		return 0, ErrConversionSizeOverflow
 	case int32:
 		val, err := maybeSelf.ToInt32()
-		return uint64(val), err
+		if val >= 0 {
+			return uint64(val), err
+		}
+		return 0, ErrConversionSizeOverflow
 	case int64:
 		val, err := maybeSelf.ToInt64()
-		return uint64(val), err
+		if val >= 0 {
+			return uint64(val), err
+		}
+		return 0, ErrConversionSizeOverflow
 	case float32:
 		val, err := maybeSelf.ToFloat32()
-		if val >= 0 && val <= math.MaxUint64 {
+		if val >= 0 && val < float2Pow64 {
 			return uint64(math.Round(float64(val))), err
 		}
 		return 0, ErrConversionSizeOverflow
 	case float64:
 		val, err := maybeSelf.ToFloat64()
-		if val >= 0 && val <= math.MaxUint64 {
+		if val >= 0 && val < float2Pow64 {
 			return uint64(math.Round(val)), err
 		}
 		return 0, ErrConversionSizeOverflow
@@ -1128,9 +1195,9 @@ func (maybeSelf someDef[T]) ToUintptr() (uintptr, error) {
 	default:
 		return uintptr(0), ErrConversionUnsupported
 	case string:
-		parseInt, err := strconv.ParseInt((ref).(string), 10, 64)
-		if uint64(parseInt) <= maxUintptr {
-			return uintptr(parseInt), err
+		parseUint, err := strconv.ParseUint((ref).(string), 10, 64)
+		if parseUint <= maxUintptr {
+			return uintptr(parseUint), err
 		}
 		return uintptr(0), ErrConversionSizeOverflow
 	case bool:
@@ -1161,28 +1228,44 @@ func (maybeSelf someDef[T]) ToUintptr() (uintptr, error) {
 		return uintptr(val), err
 	case int:
 		val, err := maybeSelf.ToInt()
-		return uintptr(val), err
-	case int8:
-		val, err := maybeSelf.ToInt8()
-		return uintptr(val), err
-	case int16:
-		val, err := maybeSelf.ToInt16()
-		return uintptr(val), err
-	case int32:
-		val, err := maybeSelf.ToInt32()
-		return uintptr(val), err
-	case int64:
-		val, err := maybeSelf.ToInt64()
-		if uint64(val) <= maxUintptr {
+		if val >= 0 {
 			return uintptr(val), err
 		}
 		return uintptr(0), ErrConversionSizeOverflow
-	case float32:
-		val, err := maybeSelf.ToFloat32()
-		return uintptr(math.Round(float64(val))), err
-	case float64:
-		val, err := maybeSelf.ToFloat64()
-		return uintptr(math.Round(val)), err
+	case int8:
+		val, err := maybeSelf.ToInt8()
+		if val >= 0 {
+			return uintptr(val), err
+		}
+		return uintptr(0), ErrConversionSizeOverflow
+	case int16:
+		val, err := maybeSelf.ToInt16()
+		if val >= 0 {
+			return uintptr(val), err
+		}
+		return uintptr(0), ErrConversionSizeOverflow
+	case int32:
+		val, err := maybeSelf.ToInt32()
+		if val >= 0 {
+			return uintptr(val), err
+		}
+		return uintptr(0), ErrConversionSizeOverflow
+	case int64:
+		val, err := maybeSelf.ToInt64()
+		if val >= 0 && uint64(val) <= maxUintptr {
+			return uintptr(val), err
+		}
+		return uintptr(0), ErrConversionSizeOverflow
+	case float32, float64:
+		// ToUint64 rounds and rejects NaN, negative and too large values
+		val, err := maybeSelf.ToUint64()
+		if err != nil {
+			return uintptr(0), err
+		}
+		if val <= maxUintptr {
+			return uintptr(val), nil
+		}
+		return uintptr(0), ErrConversionSizeOverflow
 	}
 }
 
